@@ -109,6 +109,7 @@ class Engine:
         self.cross_faults = []
         self.path_started = None
         self.timeouts = []
+        self.partial = None  # set by sx/hunt.py: an unmodelled operation was explored over a palette only
 
     # ------------------------------------------------------------------ fresh names
     def fresh(self, prefix="t"):
